@@ -44,6 +44,7 @@ RParseDemands(e, r) ==
     <<"C10.valid",    ~e.panic => (e.vok = IsOk(r))>>,
     <<"C10.validtyped", (~IsOk(r) /\ ~e.vok) => e.vtyped>>,
     <<"C18.toolong",  (IsFail(r) /\ ~e.ok /\ ~e.panic) => (SentinelsOK(r, e.is) /\ SentinelsOK(r, e.vis))>>,
+    <<"C18.notlong",  (IsFail(r) /\ ~e.ok /\ "ErrInputTooLong" \in r.forb) => "ErrInputTooLong" \notin SeqRange(e.is)>>,  \* within the limit: never refused for its length
     <<"C18.noecho",   (IsFail(r) /\ r.req = {"ErrInputTooLong"}) => ~e.echo>>
   >>
 
